@@ -12,7 +12,10 @@ RULE = ("libraries built from the model classes (any block mix incl. plain / mid
         "(oracle only): lists/dicts handed out by library.entries/strings/failed_blocks/preambles/comments/entries_dict edited by the "
         "caller (at once or after later library calls), add/remove/replace, in-place edits of entries/fields/strings/comments, format "
         "attributes changed between writes, writes that raise, a second Library sharing block objects - every write of the session is "
-        "judged against the blocks the library holds at that moment (views x edits x entrypoint bounded-exhaustive on a fixed library). "
+        "judged against the blocks the library holds at that moment (views x edits x entrypoint bounded-exhaustive on a fixed library); re-configuration of ONE format object: every attribute x every "
+        "ordered pair of settings (write, set, write, set back, write - the same field keys under each setting; int -> int columns) "
+        "bounded-exhaustive, and random set/write rounds over libraries with recurring field keys incl. a fresh format object "
+        "replacing the dropped one. "
         "distinct = distinct (library, format); "
         "non-trivial = the library has an entry with a field or a failed block")
 TRUSTED = ["oracle instances: str.splitlines (ten line boundaries) and str.format on templates whose only replacement field is {n} "
@@ -219,6 +222,47 @@ def rsession(rng):
     return {"mode": "session", "blocks": blocks, "fmt": f, "steps": steps}
 
 
+RECONF_KEYS = ["author", "title", "year", "a", "", "organization", "k" * 17, "t\u00eftle", "ID", "Author", "x" * 30]
+RECONF_VALUES = {"col": [0, 5, 9, 12, 20, "auto"], "indent": ["", "  ", "\t", "xx"], "sep": ["\n\n", "", "\n%%\n", ","],
+                 "trailing": [False, True], "failed": ["% FAIL {n}", "{n}", "", "{{n}} {n}"]}
+
+
+def rreconf(rng):
+    """ONE format object written with, re-configured, written with again ... over a library whose field keys recur
+    (in several entries and in every write): whatever is remembered per format object / per key must not outlive a setter."""
+    pool = rng.sample(RECONF_KEYS, rng.randint(2, 5)) + [rkey(rng, 30)]
+    blocks = []
+    for i in range(rng.randint(1, 4)):
+        ks = rng.sample(pool, rng.randint(1, min(4, len(pool))))
+        blocks.append(["entry", rng.choice(["article", "book"]), "e%d" % i, [[k, rval(rng)] for k in ks], None])
+        if rng.random() < 0.2:
+            blocks.append(rblock(rng, [], []))
+    f = rfmt(rng) or {"indent": "\t", "col": 0, "sep": "\n\n", "trailing": False, "failed": None}
+    f["col"] = rng.randint(0, 40) if rng.random() < 0.8 else "auto"
+    steps = [["write", rng.choice(["write", "write_string"])]]
+    for _ in range(rng.randint(2, 5)):
+        for _ in range(rng.choice([1, 1, 2])):
+            a = rng.choice(["col"] * 5 + ["indent"] * 2 + FMT_ATTRS)
+            v = rfmt_value(rng, a)
+            if a == "col" and rng.random() < 0.75:
+                v = rng.choice([0, 1, 3, 4, 5, 7, 8, 9, 12, 20, 25, 33, 40])
+            steps.append(["fmt", a, v])
+        r = rng.random()
+        if r < 0.12:
+            nf = dict(f, col=rng.choice([0, 6, 14, 30, "auto"]), indent=rng.choice(INDENTS))
+            steps.append(["fmt_new", nf])        # a fresh object (possibly at the address of the dropped one)
+        elif r < 0.24:
+            steps.append(["add", [["entry", "misc", "n%d" % len(steps), [[k, rval(rng)] for k in rng.sample(pool, 2)], None]],
+                          False, False])
+        elif r < 0.34:
+            steps.append(redit(rng))
+        if rng.random() < 0.9:
+            steps.append(["write", rng.choice(["write", "write_string"])])
+        else:
+            steps.append(["write_sub", rng.choice(["write", "write_string"]), [rng.randint(0, 9) for _ in range(rng.randint(1, 4))]])
+    return {"mode": "session", "blocks": blocks, "fmt": f, "steps": steps}
+
+
 def generate(rng, tier):
     quick = tier == "quick"
     cases = []
@@ -290,6 +334,23 @@ def generate(rng, tier):
     #    7b. random sessions
     for _ in range(400 if quick else 30000):
         cases.append({"stream": "session", "input": rsession(rng)})
+    #    7c. bounded-exhaustive: every format attribute x every ordered pair of settings x entrypoint on ONE format object:
+    #        write, set, write, set back, write (the same field keys are written under each setting)
+    for attr in FMT_ATTRS:
+        vals = RECONF_VALUES[attr]
+        for v1 in vals:
+            for v2 in vals:
+                if v1 == v2:
+                    continue
+                for via in ("write", "write_string"):
+                    f = {"indent": "  ", "col": 9, "sep": "\n\n", "trailing": False, "failed": None}
+                    f[attr] = v1
+                    cases.append({"stream": "session_reconf_grid", "input": {
+                        "mode": "session", "blocks": SESSION_BASE, "fmt": f,
+                        "steps": [["write", via], ["fmt", attr, v2], ["write", via], ["fmt", attr, v1], ["write", via]]}})
+    #    7d. random re-configuration sessions
+    for _ in range(250 if quick else 20000):
+        cases.append({"stream": "session_reconf", "input": rreconf(rng)})
     return cases
 
 
@@ -635,9 +696,18 @@ def run_session(inp):
             dirty = True
         elif op == "fmt":
             if fo is not None:
+                old = f[st[1]]
                 set_fmt(fo, f, st[1], st[2])
                 tags.add("fmt_changed_between_writes" if agg["writes"] else "fmt_set")
+                if agg["writes"] and st[1] == "col" and old != st[2] and "auto" not in (old, st[2]):
+                    tags.add("int_column_changed_between_writes")
                 dirty = True
+        elif op == "fmt_new":
+            f = dict(st[1])
+            fo = None                          # drop the old object first: the new one may get its address
+            fo = make_fmt(f)
+            tags.add("fmt_object_replaced")
+            dirty = True
         elif op in ("write", "write_sub"):
             target = lib
             if op == "write_sub":
